@@ -34,6 +34,7 @@ def run(db, chk) -> None:
     check_end_coherence(db, chk, "C13.R5-end-coherence")
     check_publish_order(db, chk, "C13.R6-publish-after-build")
     chk.floor("C13.R6-publish-after-build", 2)
+    check_recompute_before_publish(db, chk, "C13.R7-recompute-before-publish")
 
 
 def _node(name, **attrs):
@@ -410,3 +411,30 @@ def check_publish_order(db, chk, rule: str) -> None:
            found=[f"{i}:{k}:{t}" for i, k, t in events], accepted="mutate ... mutate < publish < normalise (top-level statement order)",
            why="columns published before the autograd thread is linked under the main thread keep per-thread depths and exclude that thread's kernels from the annotation's totals")
     chk.analysed_add("typestate_events", [f"{k}:{t}" for _, k, t in events])
+
+
+def check_recompute_before_publish(db, chk, rule: str) -> None:
+    """save_call_stack_to_dataframe: every derived node attribute is recomputed from the (possibly re-parented) tree, with the caller's
+    scope flag, before the attributes are copied into the frame."""
+    cs = db.mod(CS)
+    f = cs.func("CallStackGraph.save_call_stack_to_dataframe")
+    where = cs.loc(f)
+    want = ["_compute_depth", "_compute_height", "_add_kernel_info_to_cpu_ops"]
+    calls = [c for c in H.calls(f, nested=False) if isinstance(c.func, ast.Attribute) and isinstance(c.func.value, ast.Name) and c.func.value.id == "self"]
+    by = {c.func.attr: c for c in calls}
+    pub = by.get("_save_call_stack_to_df")
+    if pub is None:
+        raise AnalysisError("save_call_stack_to_dataframe no longer calls _save_call_stack_to_df")
+    top = list(f.body)
+    uncond = lambda c: any(isinstance(s, ast.Expr) and s.value is c for s in top)
+    for w in want:
+        c = by.get(w)
+        ok = c is not None and uncond(c) and c.lineno < pub.lineno
+        chk.ob(rule, f"{w} runs unconditionally before the attributes are copied to the frame", ok, where, found=[ast.unparse(x) for x in calls], accepted=f"self.{w}(apply_whole_graph=apply_whole_graph) ... self._save_call_stack_to_df()",
+               why="depth/height/kernel totals set while the thread trees were built are stale once _update_parent re-parents the autograd thread's operators")
+        if c is not None:
+            g = cs.func(f"CallStackGraph.{w}")
+            b = H.bind_call(g, c)
+            chk.ob(rule, f"{w} receives the caller's scope flag", H.name_id(b.get("apply_whole_graph")) == "apply_whole_graph", cs.loc(c), found=ast.unparse(c), accepted="apply_whole_graph=apply_whole_graph",
+                   why="a constant False recomputes only this thread's nodes while the whole node map is published")
+    chk.floor(rule, 6)
